@@ -7,9 +7,13 @@ package main
 import (
 	"encoding/json"
 	"fmt"
+	"os"
+	"os/exec"
+	"runtime/debug"
 	"sort"
 	"strconv"
 	"strings"
+	"time"
 
 	"github.com/flosch/pongo2/v6"
 )
@@ -419,17 +423,18 @@ func printNode(n J) string {
 // ---------------------------------------------------------------- replay
 
 type renderVector struct {
-	M     string                   `json:"m"`
-	Prog  []interface{}            `json:"prog"`
-	Ctx   map[string]AV            `json:"ctx"`
-	Files map[string][]interface{} `json:"files"`
-	Out   []AV                     `json:"out"`
-	Err   string                   `json:"err"`
-	Tags  []string                 `json:"tags"`
-	Evs   [][]interface{}          `json:"evs"`
+	M       string          `json:"m"`
+	Prog    []interface{}   `json:"prog"`
+	Ctx     AVMap           `json:"ctx"`
+	Files   FileMap         `json:"files"`
+	Out     []AV            `json:"out"`
+	Err     string          `json:"err"`
+	Tags    []string        `json:"tags"`
+	Evs     [][]interface{} `json:"evs"`
+	Globals AVMap           `json:"globals"`
 }
 
-func buildContext(c map[string]AV) pongo2.Context {
+func buildContext(c AVMap) pongo2.Context {
 	ctx := pongo2.Context{}
 	for k, v := range c {
 		ctx[k] = concretise(v)
@@ -464,10 +469,17 @@ func renderVec(v *renderVector) (src string, got outcome, want string, wantErr b
 	src = printNodes(v.Prog)
 	files := map[string]string{}
 	for name, nodes := range v.Files {
+		if !strings.HasPrefix(name, "/") {
+			name = "/" + name
+		}
 		files[name] = printNodes(nodes)
 	}
 	set := pongo2.NewSet("render", newMemLoader("render", files))
 	ctx := buildContext(v.Ctx)
+	for k, gv := range v.Globals {
+		set.Globals[k] = concretise(gv)
+	}
+	gbefore := snapshotCtx(set.Globals)
 	before := snapshotCtx(ctx)
 	renderLog.take()
 	renderLog.install()
@@ -478,7 +490,7 @@ func renderVec(v *renderVector) (src string, got outcome, want string, wantErr b
 		problem = "the caller's Context was modified by the execution"
 		return
 	}
-	if len(set.Globals) != 0 {
+	if snapshotCtx(set.Globals) != gbefore {
 		problem = "the set's Globals were modified by the execution"
 		return
 	}
@@ -581,7 +593,7 @@ func specEvents(evs [][]interface{}) []string {
 		case "Filter":
 			out = append(out, "Filter "+jstr(e[1]))
 		case "MacroIn":
-			out = append(out, fmt.Sprintf("MacroIn %v", e[1]))
+			out = append(out, "MacroIn")
 		case "MacroOut":
 			out = append(out, "MacroOut")
 		case "Write":
@@ -606,7 +618,7 @@ func engineEvents(recs []evRec) (out []string, problem string) {
 		case "Filter":
 			out = append(out, "Filter "+e.S)
 		case "MacroIn":
-			out = append(out, fmt.Sprintf("MacroIn %d", e.A))
+			out = append(out, "MacroIn") // the engine's counter is per defining context; its value is not part of the contract
 		case "MacroOut":
 			out = append(out, "MacroOut")
 		case "Write":
@@ -616,4 +628,113 @@ func engineEvents(recs []evRec) (out []string, problem string) {
 	return
 }
 
-var renderLog = &evLog{}
+var renderLog = &evLog{noGid: true}
+
+// AVMap is a TLA+ function with string domain; the empty function is printed by TLC as an empty tuple ([]).
+type AVMap map[string]AV
+
+func (m *AVMap) UnmarshalJSON(b []byte) error {
+	t := strings.TrimSpace(string(b))
+	if strings.HasPrefix(t, "[") {
+		*m = AVMap{}
+		return nil
+	}
+	var x map[string]AV
+	if err := json.Unmarshal(b, &x); err != nil {
+		return err
+	}
+	*m = x
+	return nil
+}
+
+// FileMap: template name -> nodes; the empty function arrives as [].
+type FileMap map[string][]interface{}
+
+func (m *FileMap) UnmarshalJSON(b []byte) error {
+	t := strings.TrimSpace(string(b))
+	if strings.HasPrefix(t, "[") {
+		*m = FileMap{}
+		return nil
+	}
+	var x map[string][]interface{}
+	if err := json.Unmarshal(b, &x); err != nil {
+		return err
+	}
+	*m = x
+	return nil
+}
+
+// cmdRenderIsolated runs every vector in a child process of its own (programs that may take the process down:
+// unbounded recursion, C01's hostile inputs). A child that dies or hangs is a violation attributed to its vector.
+func cmdRenderIsolated(args []string) {
+	rep := newReport("render-isolated")
+	sub := "render-replay"
+	if len(args) > 0 {
+		sub = args[0]
+	}
+	readVectors(func(raw json.RawMessage) {
+		rep.Vectors++
+		rep.Checked++
+		cmd := exec.Command(os.Args[0], sub)
+		cmd.Env = append(os.Environ(), "PVH_MAXSTACK=67108864")
+		cmd.Stdin = strings.NewReader(string(raw) + "\n")
+		var stdout, stderr strings.Builder
+		cmd.Stdout = &stdout
+		cmd.Stderr = &stderr
+		if err := cmd.Start(); err != nil {
+			fatal("spawn", err)
+		}
+		done := make(chan error, 1)
+		go func() { done <- cmd.Wait() }()
+		var werr error
+		hung := false
+		select {
+		case werr = <-done:
+		case <-time.After(30 * time.Second):
+			cmd.Process.Kill()
+			<-done
+			hung = true
+		}
+		var v renderVector
+		json.Unmarshal(raw, &v)
+		src := ""
+		func() {
+			defer func() { recover() }()
+			src = printNodes(v.Prog)
+		}()
+		if hung {
+			rep.viol(fmt.Sprintf("render[%s]: template %q: did not finish within 30s", v.M, src), map[string]interface{}{"vector": raw, "cmd": "render-isolated"})
+			return
+		}
+		if werr != nil {
+			tail := stderr.String()
+			what := "process died"
+			if strings.Contains(tail, "stack overflow") || strings.Contains(tail, "goroutine stack exceeds") {
+				what = "process died: stack overflow"
+			}
+			rep.viol(fmt.Sprintf("render[%s]: template %q: %s", v.M, src, what),
+				map[string]interface{}{"vector": raw, "cmd": "render-isolated", "stderr": firstLine(tail)})
+			return
+		}
+		lines := strings.Split(strings.TrimSpace(stdout.String()), "\n")
+		var child Report
+		if err := json.Unmarshal([]byte(lines[len(lines)-1]), &child); err != nil {
+			fatal("child report", err)
+		}
+		for _, cv := range child.Violations {
+			rep.viol(cv.Key, cv.Detail)
+		}
+		rep.Skipped += child.Skipped
+	})
+	rep.Distinct = rep.Checked
+	rep.emit()
+}
+
+func init() {
+	commands["render-isolated"] = cmdRenderIsolated
+	if s := os.Getenv("PVH_MAXSTACK"); s != "" {
+		if n, err := strconv.Atoi(s); err == nil {
+			debug.SetMaxStack(n)
+		}
+	}
+}
